@@ -61,8 +61,9 @@ CLAIMS['C14'] = ('Detection kernels only: the real Mirrored{Vec,VecDeque}Inner::
 
 CLAIMS['C18'] = ('Accounting kernels only: io::Receiver::poll_read on a buffered multi-segment message delivers exactly min(first segment, read-buffer room, remaining announced size) bytes, in order, advances the counter by exactly that, keeps the rest of the message buffered and reports end of file once the announced size is reached (sized/unsized mode and all u64 counters symbolic); io::Sender::poll_shutdown of a sized sender succeeds iff exactly the fixed size was written, else UnexpectedEof. poll_write, the byte transport (rch::bin over chmux), size announcement of unsized channels and remote halves are not decided.', 'DESIGN.md 0.7, 4 C18')
 
+CLAIMS['C04'] = ('Byte-stream kernels only: rch::base::io::LimitedBytesWriter (the in-memory writer whose overflow decides between one buffer and chunk streaming) accepts a write iff the total stays within the limit, stores accepted bytes in order, stays refused after the first refusal and never hands out a truncated buffer (limit symbolic, full usize); ChannelBytesReader (the reader that turns streamed chunks back into a byte stream) yields exactly the chunk bytes in order for any read size and ends cleanly only when no failure marker was sent. The per-sender prefix property itself (base::Sender/Receiver, mpsc forwarding, serde codecs, the spawn_blocking helper thread) is not decided.', 'DESIGN.md 0.7, 6')
+
 NOT_APPLICABLE = {
-    "C04": "lives in serde codecs, spawn_blocking serialisation threads and mpsc forwarding tasks; cannot be encoded for the solver (threads, codec loops); the chmux-level root cause of its known loss is decided under C01",
     "C12": "macro-generated multi-task RPC; linearizability of concurrent histories has no single-step kernel and multi-task coroutine execution is out of reach for Kani",
     "C15": "behaviour is tokio's watch cell (replaced by a model here) plus two forwarding tasks; a harness would verify the model, not remoc",
     "C17": "protocol among >=3 interleaved tasks over typed channels; exclusion and deadlock freedom are interleaving properties, not encodable within reach",
